@@ -150,9 +150,15 @@ class EarleyParser:
         # Loop through all input.
         for col in columns:
             # print(col)
-            processed_items = set()
-            while processed_items != col.items:
-                item = iter(col.items - processed_items).__next__()
+            # Process the items in the order in which they were added to the
+            # column (new items are appended while we go). Picking an
+            # arbitrary unprocessed item from the set made the order of the
+            # items, and by that the parse chosen for an ambiguous input,
+            # depend upon the hash seed.
+            index = 0
+            while index < len(col.item_list):
+                item = col.item_list[index]
+                index += 1
                 if item.is_shift:
                     if self.grammar.is_nonterminal(item.nxt):
                         self.predict(item, col)
@@ -160,7 +166,6 @@ class EarleyParser:
                         self.scan(item, columns[col.i + 1])
                 else:
                     self.complete(item, columns[item.origin], col)
-                processed_items.add(item)
 
         # Check if the parse was a success:
         last_column = columns[-1]
